@@ -6,7 +6,8 @@ def run(ck):
                "below the zone, names sharing the zone's trailing characters, a foreign domain) x 7 query types (TXT NS SOA A AAAA CNAME ANY) x "
                "storage of the label (two challenges each absent / presented / presented and cleaned up, optional empty value) x storage failure; "
                "the storage state is built by the real ChordSolver.Present/CleanUp on the in-memory KV provider, the query answered by the real "
-               "ServeDNS; labels, letter case and write order vary with VERIF_SEED; non-trivial = every case")
+               "ServeDNS of a responder that was created before the storage reached that state and has answered the same question at earlier moments (empty "
+               "storage / after the challenges were presented, before clean-up and before the failure); labels, letter case and write order vary with VERIF_SEED; non-trivial = every case")
 
     def judge(c, e, o):
         if o["setup"]:
